@@ -33,7 +33,7 @@ Alphabet ==
                            "mb2", "emoji", "li", "quote", "colon"}
     [] Family = "sql"  -> {"dashes", "open", "close", "tag", "endtag", "sq", "x", "nl", "mb2", "star"}
     [] Family = "diff" -> {"src", "tgt", "hunk1", "hunkdel", "hunkadd", "minus", "plus", "ctx", "nonl", "bodysrc", "bodytgt",
-                           "git", "empty", "badhunk", "tgtnull", "minus_mb", "plus_mb", "samepair", "samepair_nonl"}
+                           "git", "empty", "badhunk", "tgtnull", "minus_mb", "plus_mb", "samepair", "samepair_nonl", "deltail"}
 
 \* git never writes a "+++" header without the "---" header before it (prefix-closed, so it is enforced per token)
 GitPlausible(s) == Family = "diff" =>
